@@ -4,52 +4,803 @@ import PhyVerif.Spec.C07
 namespace PhyVerif.C07.Lemmas
 open PhyVerif PhyVerif.C07
 
-theorem groups_eq_spec (w : Nat) (signed : Bool) (sc : List Nat) (ids : Option (List Nat))
-    (hw : 0 < w) (hfit : FitsDtype w signed sc)
-    (hids : ∀ l, ids = some l → l.length = sc.length) :
-    spikesPerCluster w signed sc ids = specGroups sc ids := by
-  sorry
-
-theorem groups_partition (sc : List Nat) :
-    ((specGroups sc none).map (·.1)).Pairwise (· < ·) ∧
-    ((specGroups sc none).map (·.2)).flatten.Perm (List.range sc.length) := by
-  sorry
-
 theorem diff_no_wrap (w : Nat) (signed : Bool) (a b : Nat) (hw : 0 < w) (hab : a ≤ b)
     (hb : (b : Int) < (if signed then 2 ^ (w - 1) else 2 ^ w)) :
     (wrapDiff w signed a b > 0 ↔ a < b) := by
-  sorry
+  obtain ⟨k, rfl⟩ : ∃ k, w = k + 1 := ⟨w - 1, by omega⟩
+  simp only [Nat.add_sub_cancel] at hb
+  have h2 : (2 : Int) ^ (k + 1) = 2 * 2 ^ k := by rw [Int.pow_succ]; omega
+  have hpos : (0 : Int) < 2 ^ k := Int.pow_pos (by decide)
+  unfold wrapDiff
+  cases signed
+  · simp only [Bool.false_eq_true, if_false] at hb
+    have hmod : ((b : Int) - (a : Int)) % 2 ^ (k + 1) = (b : Int) - a :=
+      Int.emod_eq_of_lt (by omega) (by omega)
+    simp only [Bool.false_and, Bool.false_eq_true, if_false, hmod]
+    omega
+  · simp only [if_true] at hb
+    have hmod : ((b : Int) - (a : Int)) % 2 ^ (k + 1) = (b : Int) - a :=
+      Int.emod_eq_of_lt (by omega) (by omega)
+    have hdiv : (2 : Int) ^ (k + 1) / 2 = 2 ^ k := by rw [h2]; omega
+    simp only [Bool.true_and, hmod, hdiv]
+    have : ¬ ((b : Int) - a ≥ 2 ^ k) := by omega
+    simp only [decide_eq_true_eq, this, if_false]
+    omega
 
-theorem spikesInClusters_eq_union (sc cl : List Nat) :
-    IsSortedSetOf (spikesInClusters sc cl) (fun i => ∃ c ∈ cl, i ∈ members sc none c) := by
-  sorry
+/-! ### unique -/
+
+theorem mem_insertSorted (x v : Nat) (l : List Nat) :
+    v ∈ Np.insertSorted x l ↔ v = x ∨ v ∈ l := by
+  induction l with
+  | nil => simp [Np.insertSorted]
+  | cons y ys ih =>
+    unfold Np.insertSorted
+    split
+    · simp
+    · split
+      · subst_vars; simp
+      · simp only [List.mem_cons, ih]
+        constructor <;> rintro (h | h | h) <;> simp [h]
+
+theorem pairwise_insertSorted (x : Nat) (l : List Nat) (h : l.Pairwise (· < ·)) :
+    (Np.insertSorted x l).Pairwise (· < ·) := by
+  induction l with
+  | nil => simp [Np.insertSorted]
+  | cons y ys ih =>
+    rw [List.pairwise_cons] at h
+    unfold Np.insertSorted
+    split
+    · rename_i hxy
+      refine List.pairwise_cons.2 ⟨?_, List.pairwise_cons.2 h⟩
+      intro z hz
+      rcases List.mem_cons.1 hz with rfl | hz
+      · exact hxy
+      · exact Nat.lt_trans hxy (h.1 z hz)
+    · split
+      · exact List.pairwise_cons.2 h
+      · refine List.pairwise_cons.2 ⟨?_, ih h.2⟩
+        intro z hz
+        rcases (mem_insertSorted x z ys).1 hz with rfl | hz
+        · omega
+        · exact h.1 z hz
+
+theorem unique_fold (l : List Int) (acc : List Nat) (hacc : acc.Pairwise (· < ·)) :
+    (l.foldl (fun acc v => Np.insertSorted v.toNat acc) acc).Pairwise (· < ·) ∧
+    ∀ v, v ∈ l.foldl (fun acc v => Np.insertSorted v.toNat acc) acc ↔
+      (v ∈ acc ∨ ∃ a ∈ l, a.toNat = v) := by
+  induction l generalizing acc with
+  | nil => simp [hacc]
+  | cons a as ih =>
+    simp only [List.foldl_cons]
+    obtain ⟨h1, h2⟩ := ih (Np.insertSorted a.toNat acc) (pairwise_insertSorted _ _ hacc)
+    refine ⟨h1, fun v => ?_⟩
+    rw [h2, mem_insertSorted]
+    simp only [List.mem_cons, exists_eq_or_imp]
+    constructor
+    · rintro ((h | h) | h)
+      · exact Or.inr (Or.inl h.symm)
+      · exact Or.inl h
+      · exact Or.inr (Or.inr h)
+    · rintro (h | h | h)
+      · exact Or.inl (Or.inr h)
+      · exact Or.inl (Or.inl h.symm)
+      · exact Or.inr h
 
 theorem unique_spec (l : List Int) :
     IsSortedSetOf (Np.unique l) (fun v => Int.ofNat v ∈ l) := by
-  sorry
+  unfold Np.unique IsSortedSetOf
+  obtain ⟨h1, h2⟩ := unique_fold (l.filter (0 ≤ ·)) [] List.Pairwise.nil
+  refine ⟨h1, fun v => ?_⟩
+  rw [h2]
+  simp only [List.not_mem_nil, false_or, List.mem_filter, decide_eq_true_eq]
+  constructor
+  · rintro ⟨a, ⟨ha, h0⟩, rfl⟩
+    have : Int.ofNat a.toNat = a := by simp; omega
+    rw [this]; exact ha
+  · intro h
+    exact ⟨Int.ofNat v, ⟨h, by simp⟩, by simp⟩
 
-theorem indexOf_spec (arr : List Int) (lookup : List Nat) (hl : lookup.Nodup)
-    (ha : ∀ a ∈ arr, 0 ≤ a ∧ a.toNat ∈ lookup) :
-    Np.indexOf arr lookup = some (arr.map fun a => Int.ofNat (lookup.idxOf a.toNat)) := by
-  sorry
 
-theorem flatten_spec (d : List (Nat × List Nat)) :
-    IsSortedSetOf (flattenPerCluster d) (fun v => ∃ p ∈ d, v ∈ p.2) := by
-  sorry
+/-! ### members / spikesInClusters -/
 
-theorem groupedMean_spec (arr : List Int) (sc : List Nat) (h : arr.length = sc.length) :
-    groupedMean arr sc = some (groupedSums arr sc) := by
-  sorry
+theorem members_none (sc : List Nat) (c : Nat) :
+    members sc none c = (List.range sc.length).filter fun i => sc.getD i 0 == c := by
+  unfold members
+  conv => rhs; rw [← List.map_id ((List.range sc.length).filter fun i => sc.getD i 0 == c)]
+  apply List.map_congr_left
+  intro i hi
+  have hi' : i < sc.length := List.mem_range.1 (List.mem_filter.1 hi).1
+  simp [List.getD_eq_getElem?_getD, List.getElem?_range hi']
 
 theorem clusterSpikes_eq_members (sc : List Nat) (c : Nat) :
     spikesInClusters sc [c] = members sc none c := by
-  sorry
+  rw [members_none]
+  unfold spikesInClusters
+  cases sc with
+  | nil => simp
+  | cons x xs =>
+    simp only [List.isEmpty_cons, Bool.or_self, Bool.false_eq_true, if_false]
+    apply List.filter_congr
+    intro i _
+    rw [Bool.eq_iff_iff]; simp only [List.contains_eq_mem, List.mem_singleton, decide_eq_true_eq, beq_iff_eq]
+
+theorem spikesInClusters_eq_union (sc cl : List Nat) :
+    IsSortedSetOf (spikesInClusters sc cl) (fun i => ∃ c ∈ cl, i ∈ members sc none c) := by
+  unfold IsSortedSetOf spikesInClusters
+  simp only [members_none]
+  split
+  · rename_i h
+    refine ⟨List.Pairwise.nil, fun v => ?_⟩
+    simp only [Bool.or_eq_true, List.isEmpty_iff] at h
+    rcases h with rfl | rfl <;> simp
+  · refine ⟨List.Pairwise.filter _ List.pairwise_lt_range, fun v => ?_⟩
+    simp only [List.mem_filter, List.mem_range, List.contains_eq_mem, decide_eq_true_eq,
+      beq_iff_eq]
+    constructor
+    · rintro ⟨h1, h2⟩
+      exact ⟨_, h2, h1, rfl⟩
+    · rintro ⟨c, hc, h1, rfl⟩
+      exact ⟨h1, hc⟩
+
+theorem flatten_spec (d : List (Nat × List Nat)) :
+    IsSortedSetOf (flattenPerCluster d) (fun v => ∃ p ∈ d, v ∈ p.2) := by
+  unfold flattenPerCluster
+  obtain ⟨h1, h2⟩ := unique_spec ((d.map (·.2)).flatten.map Int.ofNat)
+  refine ⟨h1, fun v => ?_⟩
+  rw [h2]
+  simp only [List.mem_map, List.mem_flatten]
+  constructor
+  · rintro ⟨a, ⟨l, ⟨p, hp, rfl⟩, ha⟩, hav⟩
+    have : a = v := Int.ofNat.inj hav
+    subst this
+    exact ⟨p, hp, ha⟩
+  · rintro ⟨p, hp, hv⟩
+    exact ⟨v, ⟨p.2, ⟨p, hp, rfl⟩, hv⟩, rfl⟩
+
+/-! ### foldl max -/
+
+theorem le_foldl_max (l : List Nat) (a : Nat) :
+    a ≤ l.foldl max a ∧ ∀ x ∈ l, x ≤ l.foldl max a := by
+  induction l generalizing a with
+  | nil => simp
+  | cons y ys ih =>
+    simp only [List.foldl_cons, List.mem_cons]
+    obtain ⟨h1, h2⟩ := ih (max a y)
+    refine ⟨by omega, ?_⟩
+    rintro x (rfl | hx)
+    · omega
+    · exact h2 x hx
+
+theorem foldl_max_le (l : List Nat) (a b : Nat) (ha : a ≤ b) (h : ∀ x ∈ l, x ≤ b) :
+    l.foldl max a ≤ b := by
+  induction l generalizing a with
+  | nil => simpa
+  | cons y ys ih =>
+    simp only [List.foldl_cons]
+    apply ih
+    · have := h y (by simp); omega
+    · intro x hx; exact h x (by simp [hx])
+
+/-! ### bincount -/
+
+theorem range_filter_length (p : Nat → Bool) (sc : List Nat) :
+    ((List.range sc.length).filter fun i => p (sc.getD i 0)).length = sc.countP p := by
+  induction sc with
+  | nil => simp
+  | cons x xs ih =>
+    simp only [List.length_cons, List.range_succ_eq_map, List.filter_cons, List.filter_map,
+      List.countP_cons]
+    rw [← ih]
+    by_cases hx : p x <;> simp [hx, Function.comp_def]
 
 theorem templateCounts_spec (sc st : List Nat) (nt c : Nat) (hlen : st.length = sc.length)
     (hst : ∀ t ∈ st, t < nt) :
     (templateCounts sc st nt c).length = nt ∧
     ∀ t, t < nt → (templateCounts sc st nt c).getD t 0 =
       ((List.range sc.length).filter fun i => sc.getD i 0 == c && st.getD i 0 == t).length := by
-  sorry
+  unfold templateCounts
+  rw [clusterSpikes_eq_members, members_none]
+  unfold Np.bincount
+  have hm : max nt (if (List.map (fun i => st.getD i 0)
+      (List.filter (fun i => sc.getD i 0 == c) (List.range sc.length))).isEmpty = true then 0
+      else List.foldl max 0 (List.map (fun i => st.getD i 0)
+        (List.filter (fun i => sc.getD i 0 == c) (List.range sc.length))) + 1) = nt := by
+    split
+    · omega
+    · rename_i hne
+      have hpos : 0 < nt := by
+        cases hnt : nt with
+        | zero =>
+          exfalso; apply hne
+          cases st with
+          | nil =>
+            have : sc = [] := List.eq_nil_of_length_eq_zero (by simpa using hlen.symm)
+            subst this; simp
+          | cons a as => have := hst a (by simp); omega
+        | succ k => omega
+      have : List.foldl max 0 (List.map (fun i => st.getD i 0)
+          (List.filter (fun i => sc.getD i 0 == c) (List.range sc.length))) ≤ nt - 1 := by
+        apply foldl_max_le _ _ _ (Nat.zero_le _)
+        intro x hx
+        obtain ⟨i, hi, rfl⟩ := List.mem_map.1 hx
+        have hi' : i < st.length := by
+          rw [hlen]; exact List.mem_range.1 (List.mem_filter.1 hi).1
+        have := hst (st.getD i 0) (by
+          rw [List.getD_eq_getElem?_getD, List.getElem?_eq_getElem hi']; simp)
+        omega
+      omega
+  simp only [hm]
+  refine ⟨by simp, fun t ht => ?_⟩
+  rw [List.getD_eq_getElem?_getD, List.getElem?_map, List.getElem?_range ht]
+  simp only [Option.map_some, Option.getD_some]
+  rw [List.count_eq_countP, List.countP_map, List.countP_eq_length_filter, List.filter_filter]
+  congr 1
+  apply List.filter_congr
+  intro i _
+  simp [Bool.and_comm]
+
+
+/-! ### indexOf -/
+
+theorem table_fold (l : List Nat) (k : Nat) (t : List Int) :
+    ((l.zipIdx k).foldl (fun t (p : Nat × Nat) => t.set p.1 (p.2 : Int)) t).length = t.length ∧
+    (∀ v, v ∉ l →
+      ((l.zipIdx k).foldl (fun t (p : Nat × Nat) => t.set p.1 (p.2 : Int)) t)[v]? = t[v]?) ∧
+    (l.Nodup → ∀ v, v ∈ l → v < t.length →
+      ((l.zipIdx k).foldl (fun t (p : Nat × Nat) => t.set p.1 (p.2 : Int)) t)[v]? =
+        some ((k + l.idxOf v : Nat) : Int)) := by
+  induction l generalizing k t with
+  | nil => simp
+  | cons x xs ih =>
+    simp only [List.zipIdx_cons, List.foldl_cons]
+    obtain ⟨h1, h2, h3⟩ := ih (k + 1) (t.set x (k : Int))
+    refine ⟨by simpa using h1, ?_, ?_⟩
+    · intro v hv
+      simp only [List.mem_cons, not_or] at hv
+      rw [h2 v hv.2, List.getElem?_set]
+      have : ¬ x = v := fun e => hv.1 e.symm
+      simp [this]
+    · intro hnd v hv hlt
+      rw [List.nodup_cons] at hnd
+      by_cases hvx : v = x
+      · subst hvx
+        rw [h2 v hnd.1, List.getElem?_set]
+        simp [hlt]
+      · have hv' : v ∈ xs := by simpa [hvx] using hv
+        rw [h3 hnd.2 v hv' (by simpa using hlt), List.idxOf_cons]
+        have : (x == v) = false := by simp; exact fun e => hvx e.symm
+        simp only [this, cond_false]
+        congr 2; omega
+
+theorem indexTable_get (lookup : List Nat) (hl : lookup.Nodup) (v : Nat) (hv : v ∈ lookup) :
+    (Np.indexTable lookup)[v]? = some (Int.ofNat (lookup.idxOf v)) := by
+  unfold Np.indexTable
+  have hle : v ≤ lookup.foldl max 0 := (le_foldl_max lookup 0).2 v hv
+  have := (table_fold lookup 0 ((List.replicate (lookup.foldl max 0 + 1 + 1) (0 : Int)).set
+    (lookup.foldl max 0 + 1) (-1))).2.2 hl v hv (by simp; omega)
+  simpa using this
+
+theorem mapM_eq_some_map {α β : Type} (f : α → Option β) (g : α → β) (l : List α)
+    (h : ∀ a ∈ l, f a = some (g a)) : l.mapM f = some (l.map g) := by
+  induction l with
+  | nil => simp
+  | cons a as ih =>
+    rw [List.mapM_cons, h a (by simp), ih (fun b hb => h b (by simp [hb]))]
+    simp
+
+theorem indexOf_spec (arr : List Int) (lookup : List Nat) (hl : lookup.Nodup)
+    (ha : ∀ a ∈ arr, 0 ≤ a ∧ a.toNat ∈ lookup) :
+    Np.indexOf arr lookup = some (arr.map fun a => Int.ofNat (lookup.idxOf a.toNat)) := by
+  unfold Np.indexOf
+  apply mapM_eq_some_map
+  intro a haa
+  obtain ⟨h0, hm⟩ := ha a haa
+  unfold Np.pyGet?
+  rw [if_pos h0]
+  exact indexTable_get lookup hl _ hm
+
+
+/-! ### groupedMean -/
+
+theorem distinctSorted_spec (sc : List Nat) :
+    (distinctSorted sc).Pairwise (· < ·) ∧ ∀ v, v ∈ distinctSorted sc ↔ v ∈ sc := by
+  obtain ⟨h1, h2⟩ := unique_spec (sc.map Int.ofNat)
+  refine ⟨h1, fun v => ?_⟩
+  unfold distinctSorted
+  refine (h2 v).trans ?_
+  show Int.ofNat v ∈ List.map Int.ofNat sc ↔ _
+  rw [List.mem_map]
+  constructor
+  · rintro ⟨a, ha, hav⟩
+    rw [← Int.ofNat.inj hav]; exact ha
+  · intro hv; exact ⟨v, hv, rfl⟩
+
+theorem addAt_length (t : List Int) (is : List Nat) (as : List Int) :
+    (addAt t is as).length = t.length := by
+  induction is generalizing t as with
+  | nil => simp [addAt]
+  | cons i is ih =>
+    cases as with
+    | nil => simp [addAt]
+    | cons a as => simp [addAt, ih]
+
+theorem addAt_getD (t : List Int) (is : List Nat) (as : List Int) (j : Nat) (hj : j < t.length) :
+    (addAt t is as).getD j 0 =
+      t.getD j 0 + (((is.zip as).filter (fun q => q.1 == j)).map (·.2)).sum := by
+  induction is generalizing t as with
+  | nil => simp [addAt]
+  | cons i is ih =>
+    cases as with
+    | nil => simp [addAt]
+    | cons a as =>
+      simp only [addAt, List.zip_cons_cons, List.filter_cons]
+      rw [ih _ _ (by simpa using hj)]
+      by_cases hij : i = j
+      · subst hij
+        simp [List.getD_eq_getElem?_getD, hj, Int.add_assoc]
+      · simp [List.getD_eq_getElem?_getD, hij]
+
+theorem range_filter_map_getD (p : Nat → Bool) (sc : List Nat) (arr : List Int)
+    (h : arr.length = sc.length) :
+    ((List.range sc.length).filter fun i => p (sc.getD i 0)).map (fun i => arr.getD i 0) =
+      ((sc.zip arr).filter fun q => p q.1).map (·.2) := by
+  induction sc generalizing arr with
+  | nil => simp
+  | cons x xs ih =>
+    cases arr with
+    | nil => simp at h
+    | cons a as =>
+      have h' : as.length = xs.length := by simpa using h
+      simp only [List.length_cons, List.range_succ_eq_map, List.filter_cons, List.filter_map,
+        List.zip_cons_cons]
+      have ih' := ih as h'
+      by_cases hx : p x <;> simp [hx, Function.comp_def, ← ih']
+
+theorem idxOf_beq (D : List Nat) (hnd : D.Nodup) (c : Nat) (hc : c ∈ D) (j : Nat)
+    (hj : j < D.length) : (D.idxOf c == j) = (c == D[j]) := by
+  rw [Bool.eq_iff_iff]
+  simp only [beq_iff_eq]
+  constructor
+  · intro h
+    have hlt : D.idxOf c < D.length := List.idxOf_lt_length_iff.2 hc
+    have := List.getElem_idxOf hlt
+    subst h; exact this.symm
+  · intro h
+    subst h; exact hnd.idxOf_getElem j hj
+
+theorem bincount_idx (sc : List Nat) :
+    Np.bincount (sc.map fun c => (distinctSorted sc).idxOf c) =
+      (distinctSorted sc).map fun c =>
+        ((List.range sc.length).filter fun i => sc.getD i 0 == c).length := by
+  obtain ⟨hpw, hmem⟩ := distinctSorted_spec sc
+  have hnd : (distinctSorted sc).Nodup := hpw.imp (fun h => Nat.ne_of_lt h)
+  have hm : max 0 (if (sc.map fun c => (distinctSorted sc).idxOf c).isEmpty = true then 0
+      else (sc.map fun c => (distinctSorted sc).idxOf c).foldl max 0 + 1) =
+      (distinctSorted sc).length := by
+    cases hsc : sc with
+    | nil => simp [distinctSorted, Np.unique]
+    | cons x xs =>
+      rw [← hsc]
+      have hne : ¬ (sc.map fun c => (distinctSorted sc).idxOf c).isEmpty = true := by
+        simp [hsc]
+      rw [if_neg hne]
+      have hpos : 0 < (distinctSorted sc).length :=
+        List.length_pos_of_mem ((hmem x).2 (by simp [hsc]))
+      have hle : (sc.map fun c => (distinctSorted sc).idxOf c).foldl max 0 ≤
+          (distinctSorted sc).length - 1 := by
+        apply foldl_max_le _ _ _ (Nat.zero_le _)
+        intro y hy
+        obtain ⟨c, hc, rfl⟩ := List.mem_map.1 hy
+        have := List.idxOf_lt_length_iff.2 ((hmem c).2 hc)
+        omega
+      have hge : (distinctSorted sc).length - 1 ≤
+          (sc.map fun c => (distinctSorted sc).idxOf c).foldl max 0 := by
+        apply (le_foldl_max _ 0).2
+        apply List.mem_map.2
+        refine ⟨(distinctSorted sc)[(distinctSorted sc).length - 1]'(by omega), ?_, ?_⟩
+        · exact (hmem _).1 (List.getElem_mem _)
+        · exact hnd.idxOf_getElem _ _
+      omega
+  unfold Np.bincount
+  simp only [hm]
+  apply List.ext_getElem
+  · simp
+  · intro j h1 h2
+    have hj : j < (distinctSorted sc).length := by simpa using h2
+    simp only [List.getElem_map, List.getElem_range]
+    rw [range_filter_length (fun v => v == (distinctSorted sc)[j]) sc, List.count_eq_countP,
+      List.countP_map]
+    apply List.countP_congr
+    intro c hc
+    simp only [Function.comp_def]
+    rw [idxOf_beq _ hnd c ((hmem c).2 hc) j hj]
+
+theorem addAt_idx (arr : List Int) (sc : List Nat) (h : arr.length = sc.length) :
+    addAt (List.replicate (distinctSorted sc).length 0)
+        (sc.map fun c => (distinctSorted sc).idxOf c) arr =
+      (distinctSorted sc).map fun c =>
+        (((List.range sc.length).filter fun i => sc.getD i 0 == c).map
+          fun i => arr.getD i 0).sum := by
+  obtain ⟨hpw, hmem⟩ := distinctSorted_spec sc
+  have hnd : (distinctSorted sc).Nodup := hpw.imp (fun h => Nat.ne_of_lt h)
+  apply List.ext_getElem
+  · simp [addAt_length]
+  · intro j h1 h2
+    have hj : j < (distinctSorted sc).length := by simpa using h2
+    have := addAt_getD (List.replicate (distinctSorted sc).length 0)
+      (sc.map fun c => (distinctSorted sc).idxOf c) arr j (by simpa using hj)
+    rw [List.getD_eq_getElem?_getD, List.getElem?_eq_getElem h1] at this
+    simp only [Option.getD_some] at this
+    rw [this, List.getElem_map,
+      range_filter_map_getD (fun v => v == (distinctSorted sc)[j]) sc arr h]
+    simp only [List.getD_eq_getElem?_getD, List.getElem?_replicate, hj, if_true,
+      Option.getD_some, Int.zero_add, List.zip_map_left, List.filter_map, List.map_map]
+    congr 1
+    have : (List.filter ((fun q : Nat × Int => q.1 == j) ∘
+        Prod.map (fun c => List.idxOf c (distinctSorted sc)) id) (sc.zip arr)) =
+        (List.filter (fun q => q.1 == (distinctSorted sc)[j]) (sc.zip arr)) := by
+      apply List.filter_congr
+      intro q hq
+      have hq1 : q.1 ∈ sc := (List.of_mem_zip hq).1
+      simp only [Function.comp_def, Prod.map_fst]
+      exact idxOf_beq _ hnd q.1 ((hmem _).2 hq1) j hj
+    rw [this]
+    apply List.map_congr_left
+    intro q _
+    simp
+
+theorem groupedMean_spec (arr : List Int) (sc : List Nat) (h : arr.length = sc.length) :
+    groupedMean arr sc = some (groupedSums arr sc) := by
+  obtain ⟨hpw, hmem⟩ := distinctSorted_spec sc
+  have hnd : (distinctSorted sc).Nodup := hpw.imp (fun h => Nat.ne_of_lt h)
+  have hidx := indexOf_spec (sc.map Int.ofNat) (distinctSorted sc) hnd (by
+    intro a ha
+    obtain ⟨c, hc, rfl⟩ := List.mem_map.1 ha
+    exact ⟨by simp, by simpa using (hmem c).2 hc⟩)
+  have hreln : (((sc.map Int.ofNat).map fun a =>
+      Int.ofNat ((distinctSorted sc).idxOf a.toNat)).map Int.toNat) =
+      sc.map fun c => (distinctSorted sc).idxOf c := by
+    simp [List.map_map, Function.comp_def]
+  unfold groupedMean
+  show (do
+    let rel ← Np.indexOf (sc.map Int.ofNat) (distinctSorted sc)
+    pure ((addAt (List.replicate (distinctSorted sc).length 0) (rel.map Int.toNat) arr).zip
+      (Np.bincount (rel.map Int.toNat)))) = _
+  rw [hidx]
+  simp only [Option.bind_eq_bind, Option.bind_some, Option.pure_def]
+  rw [hreln, bincount_idx, addAt_idx arr sc h, List.zip_map']
+  rfl
+
+
+/-! ### stable insertion sort -/
+
+theorem insertBy_all {α : Type} (le : α → α → Bool) (x : α) (L : List α)
+    (h : ∀ y ∈ L, le x y = true) : Np.insertBy le x L = x :: L := by
+  cases L with
+  | nil => rfl
+  | cons y ys => simp [Np.insertBy, h y (by simp)]
+
+theorem insertBy_append {α : Type} (le : α → α → Bool) (x : α) (A B : List α)
+    (h : ∀ y ∈ A, le x y = false) :
+    Np.insertBy le x (A ++ B) = A ++ Np.insertBy le x B := by
+  induction A with
+  | nil => rfl
+  | cons y ys ih =>
+    simp [Np.insertBy, h y (by simp), ih (fun z hz => h z (by simp [hz]))]
+
+theorem insertBy_perm {α : Type} (le : α → α → Bool) (x : α) (L : List α) :
+    (Np.insertBy le x L).Perm (x :: L) := by
+  induction L with
+  | nil => exact List.Perm.refl _
+  | cons y ys ih =>
+    unfold Np.insertBy
+    split
+    · exact List.Perm.refl _
+    · exact (ih.cons y).trans (List.Perm.swap x y ys)
+
+theorem isort_perm {α : Type} (le : α → α → Bool) (l : List α) : (Np.isort le l).Perm l := by
+  induction l with
+  | nil => exact List.Perm.refl _
+  | cons x xs ih =>
+    unfold Np.isort
+    exact (insertBy_perm le x _).trans (ih.cons x)
+
+abbrev leKey : Nat × Nat → Nat × Nat → Bool := fun a b => decide (a.1 ≤ b.1)
+
+theorem flatMap_congr' {α β : Type} (l : List α) (f g : α → List β)
+    (h : ∀ a ∈ l, f a = g a) : l.flatMap f = l.flatMap g := by
+  rw [List.flatMap_def, List.flatMap_def, List.map_congr_left h]
+
+theorem insertBy_blocks (x : Nat × Nat) (xs : List (Nat × Nat)) (D : List Nat)
+    (hD : D.Pairwise (· < ·)) (hx : x.1 ∈ D) :
+    Np.insertBy leKey x (D.flatMap fun c => xs.filter (·.1 == c)) =
+      D.flatMap fun c => (x :: xs).filter (·.1 == c) := by
+  induction D with
+  | nil => simp at hx
+  | cons d ds ih =>
+    rw [List.pairwise_cons] at hD
+    simp only [List.flatMap_cons]
+    by_cases hxd : x.1 = d
+    · have hrest : (ds.flatMap fun c => (x :: xs).filter (·.1 == c)) =
+          ds.flatMap fun c => xs.filter (·.1 == c) := by
+        apply flatMap_congr'
+        intro c hc
+        have := hD.1 c hc
+        rw [List.filter_cons, if_neg (by simp; omega)]
+      rw [hrest, List.filter_cons, if_pos (by simp [hxd]), List.cons_append]
+      apply insertBy_all
+      intro y hy
+      rcases List.mem_append.1 hy with hy | hy
+      · have := (List.mem_filter.1 hy).2
+        simp only [beq_iff_eq] at this
+        simp; omega
+      · obtain ⟨c, hc, hyc⟩ := List.mem_flatMap.1 hy
+        have := (List.mem_filter.1 hyc).2
+        simp only [beq_iff_eq] at this
+        have := hD.1 c hc
+        simp; omega
+    · have hx' : x.1 ∈ ds := by simpa [hxd] using hx
+      have hlt := hD.1 _ hx'
+      rw [List.filter_cons, if_neg (by simp [hxd]), insertBy_append, ih hD.2 hx']
+      intro y hy
+      have := (List.mem_filter.1 hy).2
+      simp only [beq_iff_eq] at this
+      simp; omega
+
+theorem isort_blocks (l : List (Nat × Nat)) (D : List Nat) (hD : D.Pairwise (· < ·))
+    (hl : ∀ q ∈ l, q.1 ∈ D) :
+    Np.isort leKey l = D.flatMap fun c => l.filter (·.1 == c) := by
+  induction l with
+  | nil => simp [Np.isort]
+  | cons x xs ih =>
+    unfold Np.isort
+    rw [ih (fun q hq => hl q (by simp [hq])), insertBy_blocks x xs D hD (hl x (by simp))]
+
+
+/-! ### boundaries and cutting on a list of blocks -/
+
+def bnd (w : Nat) (s : Bool) : Nat → Nat → List Nat → List Nat
+  | _, _, [] => []
+  | prev, off, k :: ks =>
+    if wrapDiff w s prev k > 0 then off :: bnd w s k (off + 1) ks else bnd w s k (off + 1) ks
+
+theorem bnd_eq (w : Nat) (s : Bool) (pre0 : List Nat) (prev : Nat) (ks : List Nat) :
+    (List.range' (pre0.length + 1) ks.length).filter (fun i => i == 0 ||
+      decide (wrapDiff w s ((pre0 ++ prev :: ks).getD (i - 1) 0)
+        ((pre0 ++ prev :: ks).getD i 0) > 0)) = bnd w s prev (pre0.length + 1) ks := by
+  induction ks generalizing pre0 prev with
+  | nil => simp [bnd]
+  | cons k ks ih =>
+    have := ih (pre0 ++ [prev]) k
+    simp only [List.length_append, List.length_cons, List.length_nil, List.append_assoc,
+      List.cons_append, List.nil_append, Nat.zero_add] at this
+    simp only [List.length_cons, List.range'_succ, List.filter_cons, bnd]
+    rw [this]
+    have e1 : (pre0 ++ prev :: k :: ks).getD (pre0.length + 1 - 1) 0 = prev := by
+      simp [List.getD_eq_getElem?_getD]
+    have e2 : (pre0 ++ prev :: k :: ks).getD (pre0.length + 1) 0 = k := by
+      simp [List.getD_eq_getElem?_getD]
+    rw [e1, e2]
+    simp
+
+theorem boundaries_cons (w : Nat) (s : Bool) (k : Nat) (ks : List Nat) :
+    boundaries w s (k :: ks) = 0 :: bnd w s k 1 ks := by
+  unfold boundaries
+  rw [List.length_cons, List.range_eq_range', List.range'_succ, List.filter_cons]
+  have := bnd_eq w s [] k ks
+  simp only [List.length_nil, Nat.zero_add, List.nil_append] at this
+  simp only [Nat.zero_add, beq_self_eq_true, Bool.true_or, if_true]
+  rw [this]
+
+def keysOf (B : List (Nat × List Nat)) : List Nat :=
+  B.flatMap fun b => List.replicate b.2.length b.1
+
+def absOf (B : List (Nat × List Nat)) : List Nat := B.flatMap (·.2)
+
+def offs : Nat → List (Nat × List Nat) → List Nat
+  | _, [] => []
+  | start, b :: bs => start :: offs (start + b.2.length) bs
+
+theorem bnd_replicate (w : Nat) (s : Bool) (hw : 0 < w) (c : Nat)
+    (hc : (c : Int) < (if s then 2 ^ (w - 1) else 2 ^ w)) (off m : Nat) (R : List Nat) :
+    bnd w s c off (List.replicate m c ++ R) = bnd w s c (off + m) R := by
+  induction m generalizing off with
+  | zero => simp
+  | succ m ih =>
+    have hnot : ¬ wrapDiff w s c c > 0 := by
+      rw [diff_no_wrap w s c c hw (Nat.le_refl _) hc]; omega
+    rw [List.replicate_succ, List.cons_append, bnd, if_neg hnot, ih]
+    congr 1; omega
+
+theorem keysOf_cons (b : Nat × List Nat) (bs : List (Nat × List Nat)) (hb : b.2 ≠ []) :
+    keysOf (b :: bs) = b.1 :: (List.replicate (b.2.length - 1) b.1 ++ keysOf bs) := by
+  have : b.2.length = (b.2.length - 1) + 1 := by
+    have := List.length_pos_iff.2 hb; omega
+  unfold keysOf
+  rw [List.flatMap_cons]
+  conv => lhs; rw [this, List.replicate_succ]
+  rfl
+
+theorem bnd_blocks (w : Nat) (s : Bool) (hw : 0 < w) (b : Nat × List Nat)
+    (bs : List (Nat × List Nat)) (start : Nat)
+    (hkeys : ((b :: bs).map (·.1)).Pairwise (· < ·))
+    (hne : ∀ q ∈ b :: bs, q.2 ≠ [])
+    (hfit : ∀ q ∈ b :: bs, (q.1 : Int) < (if s then 2 ^ (w - 1) else 2 ^ w)) :
+    bnd w s b.1 (start + 1) (List.replicate (b.2.length - 1) b.1 ++ keysOf bs) =
+      offs (start + b.2.length) bs := by
+  induction bs generalizing b start with
+  | nil =>
+    rw [bnd_replicate w s hw _ (hfit b (by simp))]
+    simp [keysOf, bnd, offs]
+  | cons b2 bs' ih =>
+    rw [bnd_replicate w s hw _ (hfit b (by simp))]
+    have hb : 0 < b.2.length := List.length_pos_iff.2 (hne b (by simp))
+    have e : start + 1 + (b.2.length - 1) = start + b.2.length := by omega
+    rw [e, keysOf_cons b2 bs' (hne b2 (by simp)), bnd]
+    simp only [List.map_cons, List.pairwise_cons] at hkeys
+    have hlt : b.1 < b2.1 := hkeys.1 b2.1 (by simp)
+    have hpos : wrapDiff w s b.1 b2.1 > 0 :=
+      (diff_no_wrap w s b.1 b2.1 hw (Nat.le_of_lt hlt) (hfit b2 (by simp))).2 hlt
+    rw [if_pos hpos, offs]
+    congr 1
+    apply ih b2 (start + b.2.length)
+    · simpa using hkeys.2
+    · intro q hq; exact hne q (List.mem_cons_of_mem _ hq)
+    · intro q hq; exact hfit q (List.mem_cons_of_mem _ hq)
+
+theorem boundaries_blocks (w : Nat) (s : Bool) (hw : 0 < w) (B : List (Nat × List Nat))
+    (hkeys : (B.map (·.1)).Pairwise (· < ·))
+    (hne : ∀ q ∈ B, q.2 ≠ [])
+    (hfit : ∀ q ∈ B, (q.1 : Int) < (if s then 2 ^ (w - 1) else 2 ^ w)) :
+    boundaries w s (keysOf B) = offs 0 B := by
+  cases B with
+  | nil => simp [boundaries, keysOf, offs]
+  | cons b bs =>
+    rw [keysOf_cons b bs (hne b (by simp)), boundaries_cons]
+    have := bnd_blocks w s hw b bs 0 hkeys hne hfit
+    simp only [Nat.zero_add] at this
+    rw [this, offs, Nat.zero_add]
+
+theorem offs_keys (B : List (Nat × List Nat)) (hne : ∀ q ∈ B, q.2 ≠ []) (pre : List Nat) :
+    (offs pre.length B).map (fun i => (pre ++ keysOf B).getD i 0) = B.map (·.1) := by
+  induction B generalizing pre with
+  | nil => simp [offs]
+  | cons b bs ih =>
+    rw [offs, List.map_cons, List.map_cons]
+    congr 1
+    · rw [keysOf_cons b bs (hne b (by simp))]
+      simp [List.getD_eq_getElem?_getD]
+    · have := ih (fun q hq => hne q (List.mem_cons_of_mem _ hq))
+        (pre ++ List.replicate b.2.length b.1)
+      simp only [List.length_append, List.length_replicate, List.append_assoc] at this
+      exact this
+
+theorem cutAt_blocks (B : List (Nat × List Nat)) (pre : List Nat) :
+    cutAt (pre ++ absOf B) (offs pre.length B) = B.map (·.2) := by
+  induction B generalizing pre with
+  | nil => simp [offs, cutAt]
+  | cons b bs ih =>
+    have ih' := ih (pre ++ b.2)
+    have hl : pre ++ b.2 ++ absOf bs = pre ++ absOf (b :: bs) := by
+      simp [absOf]
+    rw [hl, List.length_append] at ih'
+    cases bs with
+    | nil => simp [offs, cutAt, absOf]
+    | cons b2 bs' =>
+      rw [offs, offs] at *
+      rw [cutAt, ih', List.map_cons]
+      congr 1
+      simp [absOf]
+
+theorem blocks_main (w : Nat) (s : Bool) (hw : 0 < w) (B : List (Nat × List Nat))
+    (hkeys : (B.map (·.1)).Pairwise (· < ·))
+    (hne : ∀ q ∈ B, q.2 ≠ [])
+    (hfit : ∀ q ∈ B, (q.1 : Int) < (if s then 2 ^ (w - 1) else 2 ^ w)) :
+    ((boundaries w s (keysOf B)).map (fun i => (keysOf B).getD i 0)).zip
+      (cutAt (absOf B) (boundaries w s (keysOf B))) = B := by
+  rw [boundaries_blocks w s hw B hkeys hne hfit]
+  have h1 := offs_keys B hne []
+  have h2 := cutAt_blocks B []
+  simp only [List.length_nil, List.nil_append] at h1 h2
+  rw [h1, h2, List.zip_map']
+  simp
+
+
+/-! ### assembling `spikesPerCluster` -/
+
+theorem zipIdx_filter_snd (p : Nat → Bool) (sc : List Nat) :
+    (sc.zipIdx.filter fun q => p q.1).map (·.2) =
+      (List.range sc.length).filter fun i => p (sc.getD i 0) := by
+  have hr : List.range sc.length = sc.zipIdx.map (·.2) := by
+    rw [List.range_eq_range']; exact (List.zipIdx_map_snd 0 sc).symm
+  rw [hr, List.filter_map]
+  congr 1
+  apply List.filter_congr
+  intro q hq
+  obtain ⟨hlt, hx⟩ := List.mem_zipIdx' (x := q.1) (i := q.2) hq
+  simp [List.getD_eq_getElem?_getD, List.getElem?_eq_getElem hlt, ← hx]
+
+theorem argsort_eq (sc : List Nat) :
+    argsortStable sc = (distinctSorted sc).flatMap fun c =>
+      (List.range sc.length).filter fun i => sc.getD i 0 == c := by
+  obtain ⟨hpw, hmem⟩ := distinctSorted_spec sc
+  unfold argsortStable
+  show (Np.isort leKey sc.zipIdx).map (·.2) = _
+  rw [isort_blocks sc.zipIdx (distinctSorted sc) hpw, List.map_flatMap]
+  · apply flatMap_congr'
+    intro c _
+    exact zipIdx_filter_snd (fun v => v == c) sc
+  · intro q hq
+    obtain ⟨hlt, hx⟩ := List.mem_zipIdx' (x := q.1) (i := q.2) hq
+    rw [hmem, hx]; exact List.getElem_mem _
+
+theorem specGroups_keys (sc : List Nat) (ids : Option (List Nat)) :
+    (specGroups sc ids).map (·.1) = distinctSorted sc := by
+  simp [specGroups, List.map_map, Function.comp_def]
+
+theorem groups_eq_spec (w : Nat) (signed : Bool) (sc : List Nat) (ids : Option (List Nat))
+    (hw : 0 < w) (hfit : FitsDtype w signed sc)
+    (hids : ∀ l, ids = some l → l.length = sc.length) :
+    spikesPerCluster w signed sc ids = specGroups sc ids := by
+  obtain ⟨hpw, hmem⟩ := distinctSorted_spec sc
+  unfold spikesPerCluster
+  split
+  · rename_i he
+    have : sc = [] := List.isEmpty_iff.1 he
+    subst this
+    simp [specGroups, distinctSorted, Np.unique]
+  · have hkeys_eq : (argsortStable sc).map (fun i => sc.getD i 0) =
+        keysOf (specGroups sc ids) := by
+      rw [argsort_eq, List.map_flatMap]
+      unfold keysOf specGroups
+      rw [List.flatMap_map]
+      apply flatMap_congr'
+      intro c _
+      apply List.eq_replicate_iff.2
+      refine ⟨by simp [members], ?_⟩
+      intro b hb
+      obtain ⟨i, hi, rfl⟩ := List.mem_map.1 hb
+      simpa using (List.mem_filter.1 hi).2
+    have habs_eq : (argsortStable sc).map
+        (fun i => (ids.getD (List.range sc.length)).getD i 0) = absOf (specGroups sc ids) := by
+      rw [argsort_eq, List.map_flatMap]
+      unfold absOf specGroups
+      rw [List.flatMap_map]
+      rfl
+    simp only []
+    rw [hkeys_eq, habs_eq]
+    apply blocks_main w signed hw
+    · rw [specGroups_keys]; exact hpw
+    · intro q hq
+      obtain ⟨c, hc, rfl⟩ := List.mem_map.1 hq
+      obtain ⟨i, hi, hic⟩ := List.mem_iff_getElem.1 ((hmem c).1 hc)
+      have : i ∈ (List.range sc.length).filter fun i => sc.getD i 0 == c := by
+        simp [List.mem_filter, hi, List.getD_eq_getElem?_getD, hic]
+      intro hnil
+      simp only [members, List.map_eq_nil_iff] at hnil
+      rw [hnil] at this
+      simp at this
+    · intro q hq
+      obtain ⟨c, hc, rfl⟩ := List.mem_map.1 hq
+      exact hfit c ((hmem c).1 hc)
+
+theorem groups_partition (sc : List Nat) :
+    ((specGroups sc none).map (·.1)).Pairwise (· < ·) ∧
+    ((specGroups sc none).map (·.2)).flatten.Perm (List.range sc.length) := by
+  obtain ⟨hpw, hmem⟩ := distinctSorted_spec sc
+  refine ⟨by rw [specGroups_keys]; exact hpw, ?_⟩
+  have h1 : ((specGroups sc none).map (·.2)).flatten = argsortStable sc := by
+    rw [argsort_eq, ← List.flatMap_def]
+    unfold specGroups
+    rw [List.flatMap_map]
+    apply flatMap_congr'
+    intro c _
+    exact members_none sc c
+  rw [h1]
+  unfold argsortStable
+  have hr : List.range sc.length = sc.zipIdx.map (·.2) := by
+    rw [List.range_eq_range']; exact (List.zipIdx_map_snd 0 sc).symm
+  rw [hr]
+  exact (isort_perm _ _).map _
 
 end PhyVerif.C07.Lemmas
